@@ -30,13 +30,27 @@ pub fn from_bytes_cobs<'a, T>(s: &'a mut [u8]) -> (r: Result<T>)
         r is Err ==> spec_from_bytes_cobs::<T>(old(s)@) is None,
 { unimplemented!() }
 
-// D4: input.iter().position(|&i| i == 0)   (spec checked by Kani harness C08.K.stub.position_zero, slices <= 8)
+// D4: input.iter().position(|&i| i == 0)   (raw stub spec checked by Kani harness C08.K.stub.position_zero, slices <= 8)
 #[verifier::external_body]
-pub fn position_zero(input: &[u8]) -> (r: Option<usize>)
+pub fn position_zero_raw(input: &[u8]) -> (r: Option<usize>)
     ensures
         match r { Some(n) => n < input.len() && input[n as int] == 0 && forall|j: int| 0 <= j < n ==> input[j] != 0,
                   None => forall|j: int| 0 <= j < input.len() ==> input[j] != 0 }
 { input.iter().position(|&i| i == 0) }
+// verified wrapper: restates the result in terms of the spec function fz (first zero, or len), so that the body of feed_ref
+// needs no proof code tied to the name of a local variable
+pub fn position_zero(input: &[u8]) -> (r: Option<usize>)
+    ensures
+        match r { Some(n) => n as int == fz(input@) && fz(input@) < input@.len(), None => fz(input@) == input@.len() },
+        0 <= fz(input@) <= input@.len(),
+{
+    let r = position_zero_raw(input);
+    proof {
+        fz_props(input@);
+        match r { Some(n) => { fz_unique(input@, n as int); } None => { fz_unique(input@, input@.len() as int); } }
+    }
+    r
+}
 
 // Rust guarantees: no slice / array object is larger than isize::MAX bytes
 #[verifier::external_body]
@@ -91,9 +105,6 @@ impl<const N: usize> CobsAccumulator<N> {
              inserts=[("fn:start", """        proof {
             axiom_slice_len(input);
             fz_props(input@);
-        }"""),
-                      ("after:let zero_pos = position_zero\\(input\\);", """        proof {
-            match zero_pos { Some(n) => { fz_unique(input@, n as int); } None => { fz_unique(input@, input@.len() as int); } }
         }"""),
                       ],
              obls=["C09.V.acc.feed_ref.safe"]),
